@@ -11,7 +11,11 @@ package harness
 // MarkerKeeper.SendRestrictionFn is called and its error mapped to a class by the table
 // below.  `bank` lines run the same movement through the real BankKeeper.SendCoins /
 // InputOutputCoinsProv (and DelegateCoinsFromAccountToModule when the receiver is a staking pool)
-// and report whether balances moved.
+// and report whether balances moved.  `bankx` lines drive the real BankKeeper with everything the app
+// composes around the marker restriction: one-to-many / many-to-one InputOutputCoinsProv, DelegateCoins,
+// part of the sender's balance on hold (HoldKeeper.AddHold), sanctioned payers
+// (SanctionKeeper.SanctionAddresses), receivers opted into quarantine (QuarantineKeeper.SetOptIn /
+// SetAutoResponse) — and print the result class and the balances of every touched account.
 //
 // The abstract configuration space is walked systematically: a mixed-radix index over
 // (sender kind × receiver kind × ctx bypass × fee grant × #agents × primary denom slot incl.
